@@ -34,6 +34,10 @@ FACTS_FOR = {
     "C13": ["Props/FactsHdr.v"],     # same functions (highest/lowest/medianEquivalentValue under the quantiles)
 }
 
+# the generated files a property's obligations read: only these are regenerated for it, so that a source change the
+# extractor of another family no longer understands does not break this property's check
+FAMILIES_FOR = {"C01": ["TypeTables.v"], "C02": ["TypeTables.v"], "C14": ["PerfKeys.v"], "C20": ["Caps.v"], "C06": ["Caps.v"]}
+
 # properties whose obligations read Generated/LockPaths.v (harness/lockpaths.go); C16's own check regenerates it itself
 LOCKPATHS_FOR = {"C10"}
 
@@ -54,9 +58,10 @@ def regenerate(check):
         ok = rc == 0 and re.search(r"^hdrtrans: %s (unchanged|written)$" % re.escape(HDRTRANS_GENERATED), out,
                                    flags=re.M) is not None
         return ok, out
-    rc, out = check.harness(["facts", verif.REPO, out_dir], timeout=120)
+    fams = FAMILIES_FOR.get(check.pid, GENERATED)
+    rc, out = check.harness(["facts", verif.REPO, out_dir] + fams, timeout=120)
     ok = rc == 0 and all(re.search(r"^facts: %s (unchanged|written)$" % re.escape(f), out, flags=re.M)
-                         for f in GENERATED)
+                         for f in fams)
     return ok, out
 
 
